@@ -57,8 +57,10 @@ inductive Op where
   | libc (fn : String) (name : String)  -- OS-level call `name` made by C function `fn`
   | call (g : Nat)                      -- direct call (or hand-over to a worker thread) of function `g` of the slice
   | havoc                               -- indirect call, call into the interpreter / of a function that may reach
-                                        -- janet_sandbox, store to the flag word: the flag word may have grown
+                                        -- janet_sandbox, store to the flag word: the interpreter runs (see `Ex`)
   | ret
+  | modeSet (m : Nat)                   -- the tracked open(2)-flags variable of this activation := m  (relevant bits only)
+  | modeOr (m : Nat)                    -- … |= m
   deriving Repr, DecidableEq
 
 structure Node where
@@ -75,10 +77,14 @@ structure Graph where
   fnEntry : Nat → Nat      -- entry node of each function
   entries : List Nat       -- functions callable from outside the slice (address escapes)
 
-/-- Untrusted certificate.  Knowledge at a program point = list of groups `G` (bit masks), each meaning
-    "some capability of `G` is still enabled" (`¬ G ⊆ flags`).  The group `0` means *false* (unreachable). -/
+/-- One *case* of the knowledge at a program point: the exact value of the tracked mode variable and a list of groups
+    `G` (bit masks), each meaning "some capability of `G` is still enabled" (`¬ G ⊆ flags`). -/
+abbrev Case := Nat × List Nat
+
+/-- Untrusted certificate.  Per node a list of cases (disjunction: one of them describes the current state; no case =
+    unreachable); per function a precondition / postcondition (groups only) and a purity flag. -/
 structure Cert where
-  k : Nat → List Nat       -- per node, on entry to the node
+  k : Nat → List Case      -- per node, on entry to the node
   fpre : Nat → List Nat    -- per function, at its entry (valid at every call site)
   fpost : Nat → List Nat   -- per function, at every return
   isPure : Nat → Bool      -- per function: never changes the flag word
@@ -91,40 +97,78 @@ def chunkGet {α : Type} (chunks : Array (Array α)) (d : α) (n : Nat) : α :=
 def imp (g' : Nat) (ks : List Nat) : Bool := ks.any (fun g => subMask g g')
 def impAll (gs ks : List Nat) : Bool := gs.all (fun g' => imp g' ks)
 
-/-- all groups known at `n` hold of the flag word `f` -/
+/-- all groups of `ks` hold of the flag word `f` -/
 def holds (ks : List Nat) (f : Nat) : Prop := ∀ g ∈ ks, subMask g f = false
+
+/-- some case of `K` describes (mode `md`, flag word `f`) -/
+def inv (K : List Case) (md f : Nat) : Prop := ∃ c ∈ K, c.1 = md ∧ holds c.2 f
+
+/-- `K'` has a case with mode `m` all of whose groups satisfy `p` -/
+def cover (K' : List Case) (m : Nat) (p : Nat → Bool) : Bool := K'.any (fun c' => c'.1 == m && c'.2.all p)
 
 section semantics
 variable (G : Graph)
 
-/-- `Reach n F n' F'`: starting at node `n` with flag word `F`, control reaches node `n'` *of the same activation*
-    with flag word `F'` (calls are executed to completion). -/
-inductive Reach : Nat → Nat → Nat → Nat → Prop
-  | refl (n F) : Reach n F n F
-  | nop {n F s n' F'} : n < G.size → (G.node n).op = .nop → s ∈ (G.node n).succs → Reach s F n' F' → Reach n F n' F'
-  | libc {n F s n' F' fn nm} : n < G.size → (G.node n).op = .libc fn nm → s ∈ (G.node n).succs → Reach s F n' F' → Reach n F n' F'
-  | assert {n F s n' F' m} : n < G.size → (G.node n).op = .assert m → assertPasses F m = true → s ∈ (G.node n).succs →
-      Reach s F n' F' → Reach n F n' F'
-  | havoc {n F F1 s n' F'} : n < G.size → (G.node n).op = .havoc → subMask F F1 = true → s ∈ (G.node n).succs →
-      Reach s F1 n' F' → Reach n F n' F'
-  | call {n F g r F1 s n' F'} : n < G.size → (G.node n).op = .call g → Reach (G.fnEntry g) F r F1 →
-      r < G.size → (G.node r).op = .ret →
-      s ∈ (G.node n).succs → Reach s F1 n' F' → Reach n F n' F'
+/-- Executions.  `Ex false n F md n' F' md'`: starting at node `n` with flag word `F` and mode variable `md`, control
+    reaches node `n'` *of the same activation* with `F'`, `md'` (calls are executed to completion, with a fresh mode variable).
+    `Ex true 0 F 0 0 F' 0`: a run of the interpreter / of code outside the slice that changes the flag word from `F` to `F'`:
+    any sequence of (a) growth of the flag word (janet_sandbox) and (b) calls of entry points of the graph, each executed
+    up to any point (completion, or abandoned by a panic) - under the same thread-global flag word.
+    A `havoc` node is exactly such a run. -/
+inductive Ex : Bool → Nat → Nat → Nat → Nat → Nat → Nat → Prop
+  | refl (n F md) : Ex false n F md n F md
+  | nop {n F md s n' F' md'} : n < G.size → (G.node n).op = .nop → s ∈ (G.node n).succs →
+      Ex false s F md n' F' md' → Ex false n F md n' F' md'
+  | libc {n F md s n' F' md' fn nm} : n < G.size → (G.node n).op = .libc fn nm → s ∈ (G.node n).succs →
+      Ex false s F md n' F' md' → Ex false n F md n' F' md'
+  | assert {n F md s n' F' md' m} : n < G.size → (G.node n).op = .assert m → assertPasses F m = true →
+      s ∈ (G.node n).succs → Ex false s F md n' F' md' → Ex false n F md n' F' md'
+  | modeSet {n F md s n' F' md' m} : n < G.size → (G.node n).op = .modeSet m → s ∈ (G.node n).succs →
+      Ex false s F m n' F' md' → Ex false n F md n' F' md'
+  | modeOr {n F md s n' F' md' m} : n < G.size → (G.node n).op = .modeOr m → s ∈ (G.node n).succs →
+      Ex false s F (md ||| m) n' F' md' → Ex false n F md n' F' md'
+  | havoc {n F md F1 s n' F' md'} : n < G.size → (G.node n).op = .havoc → Ex true 0 F 0 0 F1 0 →
+      s ∈ (G.node n).succs → Ex false s F1 md n' F' md' → Ex false n F md n' F' md'
+  | call {n F md g r F1 mdr s n' F' md'} : n < G.size → (G.node n).op = .call g →
+      Ex false (G.fnEntry g) F 0 r F1 mdr → r < G.size → (G.node r).op = .ret →
+      s ∈ (G.node n).succs → Ex false s F1 md n' F' md' → Ex false n F md n' F' md'
+  | idone (F) : Ex true 0 F 0 0 F 0
+  | igrow {F F1 F2} : subMask F F1 = true → Ex true 0 F1 0 0 F2 0 → Ex true 0 F 0 0 F2 0
+  | ienter {F f m F1 md1 F2} : f ∈ G.entries → Ex false (G.fnEntry f) F 0 m F1 md1 → Ex true 0 F1 0 0 F2 0 →
+      Ex true 0 F 0 0 F2 0
 
-/-- `Obs n F c F'`: starting at `n` with `F`, node `c` is reached - in this activation or inside a callee, at any
-    depth - with flag word `F'`. -/
-inductive Obs : Nat → Nat → Nat → Nat → Prop
-  | here {n F c F'} : Reach G n F c F' → Obs n F c F'
-  | inside {n F n1 F1 g c F'} : Reach G n F n1 F1 → n1 < G.size → (G.node n1).op = .call g →
-      Obs (G.fnEntry g) F1 c F' → Obs n F c F'
+/-- Observations.  `Ob false n F md c F' md'`: starting at `n`, node `c` is reached - in this activation, inside a callee,
+    or inside an entry point re-entered from a `havoc` node, at any depth - with flag word `F'` and (its activation's) mode
+    `md'`.  `Ob true 0 F 0 c F' md'`: same, during an interpreter run that starts with flag word `F`. -/
+inductive Ob : Bool → Nat → Nat → Nat → Nat → Nat → Nat → Prop
+  | here {n F md c F' md'} : Ex G false n F md c F' md' → Ob false n F md c F' md'
+  | inCall {n F md n1 F1 md1 g c F' md'} : Ex G false n F md n1 F1 md1 → n1 < G.size → (G.node n1).op = .call g →
+      Ob false (G.fnEntry g) F1 0 c F' md' → Ob false n F md c F' md'
+  | inHavoc {n F md n1 F1 md1 c F' md'} : Ex G false n F md n1 F1 md1 → n1 < G.size → (G.node n1).op = .havoc →
+      Ob true 0 F1 0 c F' md' → Ob false n F md c F' md'
+  | iskipGrow {F F1 c F' md'} : subMask F F1 = true → Ob true 0 F1 0 c F' md' → Ob true 0 F 0 c F' md'
+  | iskipEnter {F f m F1 md1 c F' md'} : f ∈ G.entries → Ex G false (G.fnEntry f) F 0 m F1 md1 →
+      Ob true 0 F1 0 c F' md' → Ob true 0 F 0 c F' md'
+  | iin {F f c F' md'} : f ∈ G.entries → Ob false (G.fnEntry f) F 0 c F' md' → Ob true 0 F 0 c F' md'
 
 end semantics
 
 /-! ## Checker -/
 
-def nodeOK (need : String → String → List Nat) (G : Graph) (C : Cert) (n : Nat) : Bool :=
+def caseOK (need : String → String → Nat → List Nat) (G : Graph) (C : Cert) (nd : Node) (m : Nat) (gs : List Nat) : Bool :=
+  match nd.op with
+  | .nop => nd.succs.all (fun s => cover (C.k s) m (fun g' => imp g' gs))
+  | .libc fn nm => nd.succs.all (fun s => cover (C.k s) m (fun g' => imp g' gs)) && (need fn nm m).all (fun r => imp r gs)
+  | .assert a => nd.succs.all (fun s => cover (C.k s) m (fun g' => g' &&& a != 0 || imp g' gs))
+  | .modeSet x => nd.succs.all (fun s => cover (C.k s) x (fun g' => imp g' gs))
+  | .modeOr x => nd.succs.all (fun s => cover (C.k s) (m ||| x) (fun g' => imp g' gs))
+  | .havoc => nd.succs.all (fun s => cover (C.k s) m (fun _ => false))
+  | .call g => impAll (C.fpre g) gs && cover (C.k (G.fnEntry g)) 0 (fun g' => imp g' (C.fpre g)) &&
+      nd.succs.all (fun s => cover (C.k s) m (fun g' => (C.isPure g && imp g' gs) || imp g' (C.fpost g)))
+  | .ret => impAll (C.fpost nd.fn) gs
+
+def nodeOK (need : String → String → Nat → List Nat) (G : Graph) (C : Cert) (n : Nat) : Bool :=
   let nd := G.node n
-  let k := C.k n
   -- structural
   nd.succs.all (fun s => (G.node s).fn == nd.fn) &&
   (!C.isPure nd.fn || (match nd.op with
@@ -134,23 +178,15 @@ def nodeOK (need : String → String → List Nat) (G : Graph) (C : Cert) (n : N
   (match nd.op with
    | .call g => (G.node (G.fnEntry g)).fn == g
    | _ => true) &&
-  -- knowledge (a node at which `false` is known is unreachable: nothing to check)
-  (k.contains 0 ||
-   (match nd.op with
-    | .nop => nd.succs.all (fun s => impAll (C.k s) k)
-    | .libc fn nm => nd.succs.all (fun s => impAll (C.k s) k) && (need fn nm).all (fun r => imp r k)
-    | .assert m => nd.succs.all (fun s => (C.k s).all (fun g' => g' &&& m != 0 || imp g' k))
-    | .havoc => nd.succs.all (fun s => (C.k s).isEmpty)
-    | .call g => impAll (C.fpre g) k && impAll (C.k (G.fnEntry g)) (C.fpre g) &&
-        nd.succs.all (fun s => (C.k s).all (fun g' => (C.isPure g && imp g' k) || imp g' (C.fpost g)))
-    | .ret => impAll (C.fpost nd.fn) k))
+  -- every case known at the node is carried on correctly
+  (C.k n).all (fun c => caseOK need G C nd c.1 c.2)
 
-def certOK (need : String → String → List Nat) (G : Graph) (C : Cert) : Bool :=
+def certOK (need : String → String → Nat → List Nat) (G : Graph) (C : Cert) : Bool :=
   (List.range G.size).all (nodeOK need G C) &&
-  G.entries.all (fun f => (C.k (G.fnEntry f)).isEmpty)
+  G.entries.all (fun f => cover (C.k (G.fnEntry f)) 0 (fun _ => false))
 
 /-- the nodes the checker rejects (for diagnostics / the witness synthesiser) -/
-def badNodes (need : String → String → List Nat) (G : Graph) (C : Cert) : List Nat :=
+def badNodes (need : String → String → Nat → List Nat) (G : Graph) (C : Cert) : List Nat :=
   (List.range G.size).filter (fun n => !nodeOK need G C n)
 
 /-! ## Side tables -/
